@@ -355,8 +355,16 @@ def install(reg, src):
                 # the LP data object (cached on the problem and reused by later solves) is never modified
                 lp_ = exd_["obj"]
                 c0 = sym.fn("LP_c", sym.Ref, sym.RealArr)(exd_["lpref"])
-                path.oblige(oid("cached LP data not modified (cost vector)"), z3.BoolVal(lp_.fields["c"].arr.eq(c0)), kind="frame",
-                            props=["C08", "C13"])
+                now_c = lp_.fields["c"].arr
+                if now_c.eq(c0):
+                    same_c = z3.BoolVal(True)
+                else:
+                    # written to, possibly in place: compared entry by entry at an arbitrary position
+                    skc = skolem(ip, "sk_lpc", exd_["n"])
+                    ip.reg.index_used(ip, skc)
+                    ip.reg.saturate(ip)
+                    same_c = z3.Implies(z3.And(skc >= 0, skc < exd_["n"]), z3.Select(now_c, skc) == z3.Select(c0, skc))
+                path.oblige(oid("cached LP data not modified (cost vector)"), same_c, kind="frame", props=["C08", "C13", "C20", "C07"])
             # ---------------- C18: integrality never relaxed silently
             vb = path.ghost.get("lp_vars_filter")
             if calls:
@@ -1047,6 +1055,17 @@ def install_scipy_main(reg, src):
                 wanth = case["method"] in hess_methods
                 path.oblige(oid("wiring: hess passed exactly for the Hessian methods"), z3.BoolVal((kw.get("hess") is not None) == wanth),
                             kind="post", props=["C09"])
+                if kw.get("hess") is not None:
+                    # the Hessian handed to SciPy must be that of the function SciPy minimises: the tree it is compiled from
+                    # denotes the sign-adjusted objective at every point (so its second derivatives are those of fun)
+                    hv = ip.call(kw["hess"], [Xw], {}, None)
+                    he = hv.meta.get("hessian_of") if isinstance(hv, SpecFn) else None
+                    if he is None:
+                        path.oblige(oid("wiring: hess is the Hessian of the function passed as fun"), False, kind="post", props=["C09", "C17"])
+                    else:
+                        dh = sp.den(he, Ew, sp.PV)
+                        path.oblige(oid("wiring: hess is the Hessian of the function passed as fun"), dh == (-dn if ismax else dn),
+                                    kind="post", props=["C09", "C17"])
                 if case["x0"] == "given":
                     path.oblige(oid("wiring: caller's x0 passed"), z3.BoolVal(kw.get("x0") is x0), kind="post", props=["C09"])
                 path.oblige(oid("warning handler installed only around the solver call"),
